@@ -60,7 +60,8 @@ pub enum Ev {
     RtErr { n: u32, msg: String },
     ErrAction { n: u32, what: &'static str },
     Watcher { w: u32, what: &'static str, path: u8, rec: bool, ok: bool },
-    WatcherNew { w: u32, poll: bool, ok: bool },
+    /// poll_ms: -1 = native watcher, otherwise the poll interval
+    WatcherNew { w: u32, poll_ms: i64, ok: bool },
     WatcherDrop { w: u32 },
     CfgChange { n: u32, what: String },
     QuitReq { manner: &'static str, grace: u64 },
@@ -208,6 +209,21 @@ pub fn ms(d: u64) -> Duration {
     Duration::from_millis(d)
 }
 
+/// "Slow node" fault: the task being polled right now is not polled again for `d` virtual ms after it
+/// next yields, while everything else (and the clock) moves on.
+pub fn stall_current_task(d: u64) {
+    if d == 0 {
+        return;
+    }
+    if let Some(id) = tokio::runtime::sim::current_task_id() {
+        let until = tokio::time::Instant::now() + ms(d);
+        tokio::runtime::sim::stall(id, until);
+        // make sure the scheduler wakes up when the stall is over
+        tokio::spawn(async move { tokio::time::sleep_until(until).await });
+        log(Ev::Note { what: "task-stalled", a: d as i64, b: 0 });
+    }
+}
+
 pub async fn sleep_ms(d: u64) {
     tokio::time::sleep(ms(d)).await
 }
@@ -231,6 +247,7 @@ where
     F: FnOnce() -> Fut,
     Fut: Future<Output = ()> + Send + 'static,
 {
+    tokio::runtime::sim::clear_stalls();
     SCHED.with(|s| *s.borrow_mut() = Some(Sched::new(policy, sched_seed)));
     tokio::runtime::sim::set_policy(Some(Box::new(|kind, n| {
         SCHED.with(|s| s.borrow_mut().as_mut().map(|s| s.choose(kind, n)))
@@ -272,6 +289,7 @@ where
     }));
 
     tokio::runtime::sim::set_policy(None);
+    tokio::runtime::sim::clear_stalls();
     let sched = SCHED.with(|s| s.borrow_mut().take()).expect("sched");
     let run = RUN.with(|r| r.borrow_mut().take());
     let (aborted, end_ms) = match res {
